@@ -21,6 +21,15 @@ class Summary(dict):
         if sum(1 for c in s['cands'] if c['key'] == key) < 8:
             s['cands'].append({'key': key, 'what': what, 'witness': witness, 'request': request, 'expected': expected})
 
+_NATIVE = None
+def worker_native():
+    """per-process native driver (dev profile); the binary must have been built by the parent (run.native('dev'))"""
+    global _NATIVE
+    import os
+    if _NATIVE is None or _NATIVE[0] != os.getpid():
+        _NATIVE = (os.getpid(), nat.Native('dev'))
+    return _NATIVE[1]
+
 def short_unsupported(msg): return msg.split('   [in')[0][:160]
 
 # ---------------------------------------------------------------- crate entry points
